@@ -5,7 +5,8 @@ PROP = dict(
         technique="runtime monitoring: ASan/UBSan build + exact arithmetic oracle (__int128 / long double / big-number numeral parser) applied to every conversion result, each conversion run with and without destination",
         level_text="(filled in below)",
         level_note="",
-        legs=[dict(name="c07_value", src=["c07_value.c"], libs=["mptcore"], batch=64, floors={})],
+        legs=[dict(name="c07_value", src=["c07_value.c"], libs=["mptcore"], batch=64, floors={}),
+              dict(name="c07_text", src=["c07_text.c"], libs=["mptcore"], batch=8, floors={})],
         rule="",
         assumptions=SAN_BASE,
     )
